@@ -203,6 +203,13 @@ class ExcelCompiler:
             else:
                 return a_cell.value
 
+        # the entries this method owns always follow the user's, in the same
+        # order: update() alone leaves keys kept from an earlier save (or from
+        # the loaded file) in place, so saving an unchanged model again wrote
+        # 'filename' before 'cell_map', i.e. a different file
+        for key in ('cycles', 'excel_hash', 'cell_map', 'filename'):
+            extra_data.pop(key, None)
+
         extra_data.update(dict(
             cycles=self.cycles,
             excel_hash=self._excel_file_md5_digest,
